@@ -15,7 +15,8 @@ RULE = ("Part A (solver level, maxfun = npt, abs_tol = 0 so exactly the initial 
         "random direction generators driven directly on all active-set patterns {free, lower active, upper active}^n for n <= 4 x delta in "
         "{0.1, 1, 2.5, tiny} x requested counts, sampled beyond, and in situ in solver runs: shape, exact box membership, length <= "
         "delta(1+1e-12). Non-trivial = placement with >= 1 coordinate not interior / generator call with >= 1 active "
-        "bound; distinct by pattern")
+        "bound; distinct by pattern"
+        " Second session: random objectives (the start-up's value-dependent ordering); npt from 2n+2 to the coordinate limit (beyond the stated domain); init.run_in_parallel requested without random directions (refused before any evaluation, or the documented set).")
 ASSUMPTIONS = ["finding D20: the orthogonal generator deliberately emits 'extra directions for active constraints' of length up to 2*delta "
                "(one non-zero component at an actively bounded coordinate, row index >= n + #inactive)"]
 NSAMP = {"quick": 1600, "thorough": 30000}
